@@ -678,7 +678,9 @@ def types(a, env=None, func=False):
                 t = range
                 if len(a.args) != 1 or audits(a.args[0], "types") != int:
                     t = TypeErrorRoot("expecting single integer argument")
-                    if isinstance(audits(a.args[0], "types"), TypeError):
+                    if len(a.args) > 0 and isinstance(
+                        audits(a.args[0], "types"), TypeError
+                    ):
                         t = typeerror_demote(t)
                 audits(a, "types", t)
                 audits(a.func, "types", TypeInParent())
